@@ -456,6 +456,8 @@ def run_wired(ctx, base):
         "file:deny-list:limiter-off": {"access_control": {"deny_list": ["198.51.100.0/24"]}, "rate_limit": {"enabled": False}},
         "file:deny-list:limiter-on": {"access_control": {"deny_list": ["198.51.100.0/24"]}, "rate_limit": {"enabled": True, "capacity": 1000}},
         "file:allow-list-elsewhere:explicitly-enabled": {"access_control": {"enabled": True, "allow_list": ["10.0.0.0/8"]}, "rate_limit": {"enabled": False}},
+        "file:deny-list:next-to-certificate-rule": {"access_control": {"deny_list": ["198.51.100.0/24"]}, "certificate_auth": {"paths": [{"prefix": "/members/", "require_cert": True}]}},
+        "file:default-deny:next-to-certificate-rule-and-limiter": {"access_control": {"default_allow": False}, "rate_limit": {"enabled": True, "capacity": 1000}, "certificate_auth": {"paths": [{"prefix": "/members/", "require_cert": True}]}},
     }
     for fname, sections in files.items():
         pth = os.path.join(base, fname.replace(":", "_") + ".toml")
@@ -478,13 +480,28 @@ def run_wired(ctx, base):
         try:
             for i, want in enumerate(expected):
                 for req in (b"gemini://example.org/doc.gmi\r\n", b"gemini://example.org/private/%ff/../doc.gmi\r\n")[: 1 if len(expected) > 1 else 2]:
-                    sim = ServerSim(cap["factory"], peername=PEER, loop=loop, log=[])
-                    audit.start()
-                    sim.start()
-                    sim.feed(req)
-                    loop.run_until(loop.time() + 1.0)
-                    events = audit.stop()
-                    stream = bytes(sim.transport.written)
+                    if cap.get("ssl") is None:
+                        # certificate rules select the PyOpenSSL backend: TLS is terminated inside the factory's protocol
+                        from vf import tlsbench
+
+                        bench = tlsbench.Sandwich(loop, None, captured=cap, peername=PEER)
+                        if not bench.handshake():
+                            ctx.inconclusive_because(f"wired TLS handshake failed ({name}): {bench.error}")
+                            continue
+                        audit.start()
+                        bench.client_send(req)
+                        loop.run_until(loop.time() + 1.0)
+                        bench.drain()
+                        events = audit.stop()
+                        stream = bytes(bench.client_plain)
+                    else:
+                        sim = ServerSim(cap["factory"], peername=PEER, loop=loop, log=[])
+                        audit.start()
+                        sim.start()
+                        sim.feed(req)
+                        loop.run_until(loop.time() + 1.0)
+                        events = audit.stop()
+                        stream = bytes(sim.transport.written)
                     status = int(stream[:2]) if stream[:2].isdigit() else None
                     fs = [e for e in events if e["ev"] != "os.listdir" and under(e.get("path"), [docroot])]
                     ctx.count("monitor", "wired_connections")
